@@ -99,7 +99,7 @@ kind_to_target = dict(
     floor="std::floot({0})",
     copysign=NotImplemented,
     round="std::round({0})",
-    sign="({0} == 0 ? {0} : std::copysign(1, {0}))",
+    sign="(({0}) == 0 ? ({0}) : std::copysign(1, {0}))",
     truncate=NotImplemented,
     conjugate=NotImplemented,
     real="({0}).real()",
